@@ -1368,6 +1368,9 @@ def main():
     ffi_prefixes["json_ctx"] = {v: k for k, v in JSON_CTX.items()}
     ffi_prefixes["exported"] = exported
 
+    # ---- C12: ordered durable write steps of every mdk-core entry point (tools/writeseq.py) ----
+    write_sequences(facts)
+
     # ---- emit -------------------------------------------------------------------------------
     lines = ["/- GENERATED by tools/gen_model.py from the current /repo source — do not edit. -/",
              "namespace MdkVerif.Generated", ""]
